@@ -291,10 +291,21 @@ func runCaseOnce(ctx *common.Ctx, id int64, dir string, b built, limit time.Dura
 	scope.Let(slip.Symbol("c07-rec"), slip.Fixnum(id))
 	// a run the watchdog gives up on must not go on evaluating next to the following cases (slip's function
 	// table is not made for that): once abandoned, every further call in it fails
-	var abandoned atomic.Bool
+	// ... and a run that makes more calls than any generated program needs (a changed interpreter can turn a
+	// bounded recursion into an endless one, which would end the whole process with a Go stack overflow) is
+	// abandoned the same way and reported as the observation "did not finish" (MOOF, never what the model says)
+	var abandoned, runaway atomic.Bool
+	var calls atomic.Int64
 	scope.InterruptCheck = func() {
+		// (a *slip.Panic: trace.go normalAfter passes it on as it is; for any other value it would build a
+		// condition object by calling Lisp code, which runs into this check again, without end)
 		if abandoned.Load() {
-			panic("c07: run abandoned by the watchdog")
+			panic(&slip.Panic{Message: "c07: run abandoned"})
+		}
+		if calls.Add(1) > 50000 {
+			runaway.Store(true)
+			abandoned.Store(true)
+			panic(&slip.Panic{Message: "c07: call budget exhausted"})
 		}
 	}
 	recMu.Lock()
@@ -302,7 +313,7 @@ func runCaseOnce(ctx *common.Ctx, id int64, dir string, b built, limit time.Dura
 	recMu.Unlock()
 	var src strings.Builder
 	for i, body := range b.g.defs {
-		fmt.Fprintf(&src, "(defun %s_%d ()%s)\n", nm.fnPrefix, i, nm.forms(body))
+		src.WriteString(nm.defun(i, body, b.g.dctx[i]) + "\n")
 	}
 	main := nm.Lisp(b.main)
 	if def := common.EvalIn(scope, src.String()); def.Err != "" {
@@ -320,6 +331,9 @@ func runCaseOnce(ctx *common.Ctx, id int64, dir string, b built, limit time.Dura
 
 	var gres string
 	switch {
+	case runaway.Load():
+		gres = "MOOF"
+		ctx.Hist("call-budget-exhausted")
 	case out.Err == "timeout":
 		gres = "MHang"
 		hung = true
@@ -342,7 +356,7 @@ func runCaseOnce(ctx *common.Ctx, id int64, dir string, b built, limit time.Dura
 	}
 	gdefs := make([]string, len(b.g.defs))
 	for i, body := range b.g.defs {
-		gdefs[i] = gForms(body)
+		gdefs[i] = "(" + gCtx(b.g.dctx[i]) + ", " + gForms(body) + ")"
 	}
 	gvars := make([]string, len(b.vars))
 	for i, v := range b.vars {
@@ -458,6 +472,21 @@ func Run(ctx *common.Ctx) {
 		ctx.Hist(shape)
 		add(built{g: g, main: main, vars: []int64{0, 0}}, shape)
 	}
+	// (1c) functions with a closure: where the defun is written x target block x position in the body
+	for _, shape := range closureShapeNames {
+		for _, target := range closureTargets {
+			for _, pos := range closurePositions {
+				g := &gen{rng: ctx.Rng}
+				main, ok := g.closureCase(shape, target, pos)
+				if !ok {
+					continue
+				}
+				ctx.Hist("closure:" + shape)
+				ctx.Hist("closure-target:" + target)
+				add(built{g: g, main: main, vars: []int64{0, 0}}, "closure "+shape+" "+target+" "+pos)
+			}
+		}
+	}
 	// (2) random nestings, depth 1..5; half of them steered towards places that deliver the exit
 	for i := 0; i < nrandom; i++ {
 		g := &gen{rng: ctx.Rng, safe: ctx.Rng.Chance(50), nilWrap: ctx.Rng.Chance(25)}
@@ -475,7 +504,7 @@ func Run(ctx *common.Ctx) {
 		add(b, fmt.Sprintf("random %s depth=%d exit=%s kinds=%s", mode, d, g.exitKind, strings.Join(g.usedKinds, ">")))
 	}
 	ctx.Meta.DistinctNontrivial = len(distinct)
-	ctx.Meta.Rule = "since repo_fixes/C07-1..21 every body position hands an exit on, so exits stand in first / middle / last positions alike, in arguments, let inits, tests, return-from value forms, cleanup forms and result forms, and a go may jump backward (generated behind a counter test so that every program ends), to symbol tags, out of inner tagbodies, loops and function calls; the steered half of the random programs is lexically scoped (inside the guard), the wild half also names blocks / tags of callers and unknown ones; re-entrant: a generated defun whose return-from / return / go site is evaluated again while its own exit is in flight (self-call from an unwind-protect cleanup form, from the value form of the exit, inside the protected form), called 2-3 times with the counter rewound, every evaluation handing a different value to its exit; systematic: every (form kind x body position x exit kind) one level deep and every ordered pair of form kinds two levels deep, inside (block b (tagbody <nest> (tr) T (tr)) (tr)); random: nestings of depth 1..5 (plus side trees) of block, tagbody, unwind-protect (protected form and cleanup), with-mutex-lock, ignore-errors, recover (body and handler), with-open-file, let (body and init), progn, when (body and test), cond (body and test), dolist, dotimes, do (bodies and result forms), list arguments, return-from value, funcall of a lambda, calls of generated defuns, with an exit (normal, return-from/return to a visible or unknown block, go to a visible tag, error of 5 classes) at a random body position; result + ordered (tr k) trace, each entry with the mutexes held (TryLock) and the descriptors open on the test files (/proc/self/fd), + the same after the run; distinct = distinct programs with at least one nesting form and a non-normal exit"
+	ctx.Meta.Rule = "functions with a closure (ENUMERATED: defun written at the top level / in let / let-let / block / block inside let / let inside block / nil block x return-from the function's own name / a block inside the body / the caller's block / the exited block around the defun / an error x exit written directly, in when, in the protected form and in a cleanup form of unwind-protect, in a funcall'ed lambda, in a dolist body, in a let init, in an argument; each function called twice from two blocks of one name); the generated defuns of the random and re-entrant families are also written inside 0-3 let / block scopes; since repo_fixes/C07-1..21 every body position hands an exit on, so exits stand in first / middle / last positions alike, in arguments, let inits, tests, return-from value forms, cleanup forms and result forms, and a go may jump backward (generated behind a counter test so that every program ends), to symbol tags, out of inner tagbodies, loops and function calls; the steered half of the random programs is lexically scoped (inside the guard), the wild half also names blocks / tags of callers and unknown ones; re-entrant: a generated defun whose return-from / return / go site is evaluated again while its own exit is in flight (self-call from an unwind-protect cleanup form, from the value form of the exit, inside the protected form), called 2-3 times with the counter rewound, every evaluation handing a different value to its exit; systematic: every (form kind x body position x exit kind) one level deep and every ordered pair of form kinds two levels deep, inside (block b (tagbody <nest> (tr) T (tr)) (tr)); random: nestings of depth 1..5 (plus side trees) of block, tagbody, unwind-protect (protected form and cleanup), with-mutex-lock, ignore-errors, recover (body and handler), with-open-file, let (body and init), progn, when (body and test), cond (body and test), dolist, dotimes, do (bodies and result forms), list arguments, return-from value, funcall of a lambda, calls of generated defuns, with an exit (normal, return-from/return to a visible or unknown block, go to a visible tag, error of 5 classes) at a random body position; result + ordered (tr k) trace, each entry with the mutexes held (TryLock) and the descriptors open on the test files (/proc/self/fd), + the same after the run; distinct = distinct programs with at least one nesting form and a non-normal exit"
 	header := "From C07 Require Import Model Spec Corr.\nOpen Scope N_scope.\n"
 	footer := "Definition res := Eval vm_compute in check_all cases.\nPrint res.\n" +
 		"Definition in_guard_count := Eval vm_compute in in_guard cases.\nPrint in_guard_count.\n" +
